@@ -21,6 +21,7 @@ from . import c01, c04, setop_prop as S, setops
 
 ASSUMES = ["C17 (mask/eq/contains ignore host bits)", "pt/models.py std model"]
 LEVEL_TEXT = __doc__
+DEEPER = False     # thorough tier: more configurations and the mutant corpus, same unrolling (path count grows too fast)
 RULES = {"repr": "R18.3", "ctor": "R18.3"}
 # entry method -> must the stored prefix of an existing node be replaced by the entry's prefix?
 REPLACES = {"Entry::insert": True, "OccupiedEntry::insert": True, "VacantEntry::insert": True, "VacantEntry::insert_with": True,
